@@ -997,6 +997,25 @@ func famParse(tr *Trace, id *int) int {
 			}
 		}
 	}
+	// (b3) an opted-in entry that FOLLOWS entries which did not opt in (and precedes others): each entry decides for itself
+	for _, env := range envs {
+		doc := minimalDoc()
+		doc["contents"] = []any{map[string]any{"src": "/s/${VAR}/first", "dst": "/d/${VAR}/first"},
+			map[string]any{"src": "/s/${VAR}/second", "dst": "/d/${VAR}/second", "expand": false},
+			map[string]any{"src": "/s/${VAR}/third", "dst": "/d/${VAR}/third", "expand": true},
+			map[string]any{"src": "/s/${VAR}/fourth", "dst": "/d/${VAR}/fourth"},
+			map[string]any{"dst": "/d/${VAR}/fifth", "type": "dir", "expand": true}}
+		cfg, _, err := parseDoc(doc, env)
+		for i, want := range []struct{ raw, opt string }{{"/d/${VAR}/first", "absent"}, {"/d/${VAR}/second", "false"}, {"/d/${VAR}/third", "true"}, {"/d/${VAR}/fourth", "absent"}, {"/d/${VAR}/fifth", "true"}} {
+			ev := M{"ev": "expand", "path": "contents.[].dst", "kind": "string", "raw": want.raw, "rawtag": fmt.Sprintf("entry-%d-of-a-mixed-list", i+1), "env": envM(env), "opt": want.opt, "obs": []any{}, "err": ""}
+			if err != nil {
+				ev["err"] = safeStr(err.Error())
+			} else if len(cfg.Contents) == 5 {
+				ev["obs"] = []any{safeStr(cfg.Contents[i].Destination)}
+			}
+			emit(ev)
+		}
+	}
 	// (c) passphrases: format-specific variable with the general one as fallback
 	names := []string{"NFPM_PASSPHRASE", "NFPM_DEB_PASSPHRASE", "NFPM_RPM_PASSPHRASE", "NFPM_APK_PASSPHRASE"}
 	for mask := 0; mask < 16; mask++ {
